@@ -19,6 +19,10 @@
 //	    => pto=<pto> seq=<ka|->:<idle>,…     (one entry per event; deadlines relative to the initial last-packet-received time)
 //	    ev = <kind><dt ns>; kind r = a PING is received, a = a padding-only packet is received, s = an ack-eliciting
 //	    1-RTT packet is sent, n = a 1-RTT packet that is not ack-eliciting is sent, p = a path probe packet is sent
+//	trlife <singleUse> <createdConn> <idsPerConn> <expiryMs> <ev,ev,…>
+//	    => seq=<stopped><socketClosed>:<handlers>[:E],…    (one entry per event, on a real Transport over a scripted socket)
+//	    ev = L Transport.Listen | c Listener.Close | a<k> connection k's IDs are added | rl<k> / rr<k> ReplaceWithClosed of
+//	    k's IDs with / without a CONNECTION_CLOSE packet | x<k> Remove of k's IDs | w<ms> time passes | T Transport.Close
 package closeu
 
 import (
@@ -99,7 +103,9 @@ func genErr(r *vh.Rand) string {
 var callers = []string{"read", "readuni", "write", "accept", "acceptuni", "open", "openuni", "rcvdgram", "senddgram"}
 
 func (rn *runner) GenOp(r *vh.Rand, i int) string {
-	switch r.Pick(22, 7, 22, 32, 5, 12) {
+	switch r.Pick(22, 7, 22, 32, 5, 12, 14) {
+	case 6:
+		return genTrLife(r)
 	case 0: // idle helpers on arbitrary field values (also negative and zero)
 		lr := r.Range(-1_000_000_000_000, 1_000_000_000_000)
 		fae := int64(0)
@@ -227,6 +233,69 @@ func (rn *runner) GenOp(r *vh.Rand, i int) string {
 	}
 }
 
+// genTrLife: the life of a transport's read loop. Mostly single-use transports with a listener that is closed at
+// a generated point of the history; up to three connections that come, end through ReplaceWithClosed (local /
+// remote close) or Remove (immediate close) and are retired; waits around the retirement period.
+func genTrLife(r *vh.Rand) string {
+	single := r.Chance(75)
+	created := r.Chance(40)
+	nids := 1 + r.Intn(2)
+	exp := []int64{3, 15, 60, 300}[r.Intn(4)]
+	var evs []string
+	if r.Chance(90) {
+		evs = append(evs, "L")
+	}
+	n := 2 + r.Intn(9)
+	live := map[int]bool{}
+	lnClosed := false
+	// immediate closes (Remove) are the rarer way for a connection to end
+	rmPct := []int{0, 0, 15, 50}[r.Intn(4)]
+	for len(evs) < n {
+		switch r.Pick(30, 30, 14, 18, 3, 5) {
+		case 0:
+			k := r.Intn(3)
+			evs = append(evs, fmt.Sprintf("a%d", k))
+			live[k] = true
+		case 1: // a connection ends (mostly one that exists)
+			k := r.Intn(3)
+			for j := 0; j < 3 && !live[k] && r.Chance(85); j++ {
+				k = (k + 1) % 3
+			}
+			switch {
+			case r.Chance(rmPct):
+				evs = append(evs, fmt.Sprintf("x%d", k))
+			case r.Chance(65):
+				evs = append(evs, fmt.Sprintf("rl%d", k))
+			default:
+				evs = append(evs, fmt.Sprintf("rr%d", k))
+			}
+			delete(live, k)
+		case 2:
+			if !lnClosed || r.Chance(20) {
+				evs = append(evs, "c")
+				lnClosed = true
+			}
+		case 3:
+			d := []int64{exp, exp - 1, exp / 2, exp + 1, 1, 0, 2 * exp}[r.Intn(7)]
+			evs = append(evs, fmt.Sprintf("w%d", d))
+		case 4:
+			evs = append(evs, "L")
+		default:
+			if r.Chance(40) {
+				evs = append(evs, "T")
+			}
+		}
+	}
+	if r.Chance(70) {
+		// let every stand-in be retired
+		evs = append(evs, fmt.Sprintf("w%d", exp))
+		if r.Chance(50) && !lnClosed {
+			evs = append(evs, "c")
+		}
+	}
+	return fmt.Sprintf("trlife %d %d %d %d %s", b01(single), b01(created), nids, exp, strings.Join(evs, ","))
+}
+
 func parseSpec(s string) (quic.VerifErrSpec, bool) {
 	f := strings.Split(s, ":")
 	if len(f) != 5 {
@@ -339,6 +408,57 @@ func (rn *runner) Exec(op string) string {
 			}
 		}
 		return fmt.Sprintf("pto=%d seq=%s", pto, strings.Join(out, ","))
+	case "trlife":
+		if len(f) != 6 {
+			return "bad-op"
+		}
+		in := quic.VerifTrIn{Single: f[1] == "1", Created: f[2] == "1", NIDs: int(a(3)), Expiry: time.Duration(a(4)) * time.Millisecond}
+		if in.Expiry < 0 || in.Expiry > time.Hour {
+			return "bad-op"
+		}
+		for _, e := range strings.Split(f[5], ",") {
+			ev := quic.VerifTrEvent{}
+			num := func(s string) (int64, bool) {
+				n, err := strconv.ParseUint(s, 10, 31)
+				return int64(n), err == nil
+			}
+			ok := true
+			var v int64
+			switch {
+			case e == "L" || e == "c" || e == "T":
+				ev.Kind = e[0]
+			case strings.HasPrefix(e, "rl") || strings.HasPrefix(e, "rr"):
+				ev.Kind = 'r'
+				if e[1] == 'l' {
+					ev.Arg = 1
+				}
+				v, ok = num(e[2:])
+				ev.K = int(v)
+			case strings.HasPrefix(e, "a") || strings.HasPrefix(e, "x"):
+				ev.Kind = e[0]
+				v, ok = num(e[1:])
+				ev.K = int(v)
+			case strings.HasPrefix(e, "w"):
+				ev.Kind = 'w'
+				ev.Arg, ok = num(e[1:])
+			default:
+				ok = false
+			}
+			if !ok || ev.K > 100 {
+				return "bad-op"
+			}
+			in.Events = append(in.Events, ev)
+		}
+		var obs []quic.VerifTrObs
+		inBubble(func() { obs = quic.VerifTrLife(in, synctest.Wait) })
+		out := make([]string, len(obs))
+		for i, o := range obs {
+			out[i] = fmt.Sprintf("%d%d:%d", b01(o.Stopped), b01(o.ConnClosed), o.Handlers)
+			if o.Err {
+				out[i] += ":E"
+			}
+		}
+		return "seq=" + strings.Join(out, ",")
 	case "closedconn":
 		if len(f) != 3 {
 			return "bad-op"
